@@ -182,7 +182,7 @@ fn probe_names() -> Vec<String> {
     v[P_LEN_S] = "swarm_history_len_1_3".into();
     v[P_LEN_M] = "swarm_history_len_4_12".into();
     v[P_LEN_L] = "swarm_history_len_13_48".into();
-    v[P_LEN_XL] = "swarm_history_len_200_600_on_1_or_2_registers".into();
+    v[P_LEN_XL] = "swarm_history_long_lived_200_plus_operations".into();
     v[P_ALPHA_DECK] = "swarm_alphabet_distinct_cards_from_a_shuffled_deck_some_flagged".into();
     v[P_SIZEMASK_ALL] = "swarm_all_sizes_enabled".into();
     v[P_SIZEMASK_SUBSET] = "swarm_subset_of_sizes_enabled".into();
@@ -1077,10 +1077,11 @@ impl World for C19 {
             }
         }
         // one run in 256 is a long-lived history on one or two objects
-        let xl = rng.below(256) == 0;
-        let nregs = if xl { 1 + rng.usize_below(2) } else { nregs };
+        let deep = crate::sim::depth() >= 1 && rng.chance(1, 2);
+        let xl = if deep { rng.below(8) == 0 } else { rng.below(256) == 0 };
+        let nregs = if xl { 1 + rng.usize_below(if deep { 4 } else { 2 }) } else { nregs };
         let len = if xl {
-            200 + rng.usize_below(401)
+            200 + rng.usize_below(if deep { 801 } else { 401 })
         } else {
             match rng.below(3) {
                 0 => 1 + rng.usize_below(3),
